@@ -1100,3 +1100,433 @@ class CtorPathEval:
                     self._go(y, dict(env), trail)
                 return
             nid = nxt[0][0]
+
+
+# ---------------------------------------------------------------------------
+# abstract evaluation of the suffix branch of Request.range (C16 R14)
+# ---------------------------------------------------------------------------
+
+class SuffixText:
+    """The text after the "-" of a suffix range spec `-<last>` as an abstract value: `lead` is the class of its first
+    character ('digit', '+', '-'), `mag` the magnitude of the number it spells ('zero', 'pos').  Only NUMERIC spellings
+    are cells (int() of the text succeeds); text that int() refuses is rejected by the conversion itself."""
+
+    def __init__(self, lead: str, mag: str):
+        self.lead, self.mag = lead, mag
+
+    def label(self) -> str:
+        sign = '' if self.lead == 'digit' else self.lead
+        return {'zero': 'bytes=-%s0 (and -%s00, ...)', 'pos': 'bytes=-%s5 (any -%sN, N > 0)'}[self.mag] % (sign, sign)
+
+    def sign(self) -> str:
+        if self.mag == 'zero':
+            return 'zero'
+        return 'neg' if self.lead == '-' else 'pos'
+
+    def first_char(self):
+        if self.lead != 'digit':
+            return self.lead
+        return '0' if self.mag == 'zero' else SUFFIX_DIGIT         # a digit-leading spelling of zero has only '0' digits
+
+    def __repr__(self):
+        return '<suffix text %s/%s>' % (self.lead, self.mag)
+
+
+class _Digit:
+    """one character out of '0'..'9', not known which"""
+
+    def __repr__(self):
+        return '<a digit>'
+
+
+SUFFIX_DIGIT = _Digit()
+SUFFIX_CELLS = tuple(SuffixText(lead, mag) for mag in ('zero', 'pos') for lead in ('digit', '+', '-'))
+
+
+class SignInt:
+    """an integer of which only the sign is known: 'neg' (<= -1) or 'pos' (>= 1); zero is the concrete 0"""
+
+    def __init__(self, sign: str):
+        self.sign = sign
+
+    def bounds(self):
+        return (None, -1) if self.sign == 'neg' else (1, None)
+
+    def __repr__(self):
+        return '<%s int>' % self.sign
+
+
+def sign_int(sign: str):
+    return 0 if sign == 'zero' else SignInt(sign)
+
+
+def _cmp_interval(op, lo, hi, c):
+    """truth of `x <op> c` for every x in [lo, hi] (None = unbounded), or None when it depends on x"""
+    below = hi is not None and hi < c          # all x < c
+    above = lo is not None and lo > c          # all x > c
+    ge = lo is not None and lo >= c
+    le = hi is not None and hi <= c
+    if isinstance(op, ast.Lt):
+        return True if below else (False if ge else None)
+    if isinstance(op, ast.LtE):
+        return True if le else (False if above else None)
+    if isinstance(op, ast.Gt):
+        return True if above else (False if le else None)
+    if isinstance(op, ast.GtE):
+        return True if ge else (False if below else None)
+    if isinstance(op, ast.Eq):
+        return False if (below or above) else None
+    if isinstance(op, ast.NotEq):
+        return True if (below or above) else None
+    return None
+
+
+_FLIP = {ast.Lt: ast.Gt, ast.Gt: ast.Lt, ast.LtE: ast.GtE, ast.GtE: ast.LtE, ast.Eq: ast.Eq, ast.NotEq: ast.NotEq}
+
+
+class SuffixBranchEval:
+    """Walks the CFG of `Request.range` from the statement that splits the range spec at "-", with the piece in front of
+    the "-" empty, the separator present and the piece behind it ONE cell of SUFFIX_CELLS, over the value domain
+    {concrete constants, SuffixText, a digit, SignInt, UNK}.  A test whose outcome the domain does not decide forks (the
+    path is then marked undecided).  outcomes: [('return', value, return stmt, undecided tests) | ('raise', None, stmt, ...)]."""
+
+    MAX_STEPS = 4000
+
+    def __init__(self, project: Project, func: Func, cfg: CFG, start: int, env: Dict[str, object]):
+        self.p, self.f, self.cfg, self.start, self.env0 = project, func, cfg, start, env
+        self.steps = 0
+        self.outcomes: List[tuple] = []
+
+    def run(self):
+        self.steps, self.outcomes = 0, []
+        self._go(self.start, dict(self.env0), (), ())
+        return self.outcomes
+
+    # ---- values
+    def truth(self, e, env):
+        if isinstance(e, ast.BoolOp):
+            vals = [self.truth(v, env) for v in e.values]
+            if isinstance(e.op, ast.And):
+                return False if any(v is False for v in vals) else (True if all(v is True for v in vals) else None)
+            return True if any(v is True for v in vals) else (False if all(v is False for v in vals) else None)
+        if isinstance(e, ast.UnaryOp) and isinstance(e.op, ast.Not):
+            v = self.truth(e.operand, env)
+            return None if v is None else (not v)
+        return self._bool(self.ev(e, env))
+
+    @staticmethod
+    def _bool(v):
+        if v is UNK:
+            return None
+        if isinstance(v, (SuffixText, _Digit, SignInt)):
+            return True                 # a non-empty text / a character / a non-zero number
+        return bool(v)
+
+    def ev(self, e, env):
+        if isinstance(e, ast.Constant):
+            return e.value if isinstance(e.value, _CONCRETE) else UNK
+        if isinstance(e, ast.Name):
+            return env.get(e.id, UNK)
+        if isinstance(e, ast.Tuple):
+            return tuple(self.ev(x, env) for x in e.elts)
+        if isinstance(e, ast.UnaryOp):
+            if isinstance(e.op, ast.Not):
+                t = self.truth(e.operand, env)
+                return UNK if t is None else (not t)
+            v = self.ev(e.operand, env)
+            if isinstance(e.op, ast.USub):
+                if isinstance(v, SignInt):
+                    return SignInt('pos' if v.sign == 'neg' else 'neg')
+                if isinstance(v, int) and not isinstance(v, bool):
+                    return -v
+            if isinstance(e.op, ast.UAdd) and (isinstance(v, SignInt) or (isinstance(v, int) and not isinstance(v, bool))):
+                return v
+            return UNK
+        if isinstance(e, ast.BoolOp):
+            last = UNK
+            for x in e.values:
+                last = self.ev(x, env)
+                t = self._bool(last)
+                if t is None:
+                    return UNK
+                if isinstance(e.op, ast.And) and not t:
+                    return last
+                if isinstance(e.op, ast.Or) and t:
+                    return last
+            return last
+        if isinstance(e, ast.IfExp):
+            t = self.truth(e.test, env)
+            return UNK if t is None else self.ev(e.body if t else e.orelse, env)
+        if isinstance(e, ast.Subscript):
+            base = self.ev(e.value, env)
+            s = e.slice
+            if isinstance(base, SuffixText):
+                if isinstance(s, ast.Constant) and s.value == 0:
+                    return base.first_char()
+                if isinstance(s, ast.Slice) and s.step is None and s.lower is None and isinstance(s.upper, ast.Constant) and s.upper.value == 1:
+                    return base.first_char()
+                return UNK
+            if isinstance(base, (str, tuple)) and not isinstance(s, ast.Slice):
+                k = self.ev(s, env)
+                if isinstance(k, int) and not isinstance(k, bool):
+                    try:
+                        return base[k]
+                    except IndexError:
+                        raise _Raised('builtins.IndexError', e)
+            return UNK
+        if isinstance(e, ast.Compare):
+            vals = [self.ev(x, env) for x in [e.left] + list(e.comparators)]
+            out = True
+            for op, a, b in zip(e.ops, vals, vals[1:]):
+                r = self._compare(op, a, b)
+                if r is False:
+                    return False
+                if r is None:
+                    out = UNK
+            return out
+        if isinstance(e, ast.BinOp):
+            a, b = self.ev(e.left, env), self.ev(e.right, env)
+            ints = all(isinstance(x, int) and not isinstance(x, bool) for x in (a, b))
+            if ints and isinstance(e.op, (ast.Add, ast.Sub, ast.Mult)):
+                return a + b if isinstance(e.op, ast.Add) else (a - b if isinstance(e.op, ast.Sub) else a * b)
+            if isinstance(e.op, ast.Mult) and (isinstance(a, SignInt) or isinstance(b, SignInt)):
+                x, k = (a, b) if isinstance(a, SignInt) else (b, a)
+                if isinstance(k, int) and not isinstance(k, bool):
+                    return 0 if k == 0 else SignInt(x.sign if k > 0 else ('pos' if x.sign == 'neg' else 'neg'))
+            if isinstance(e.op, (ast.Add, ast.Sub)) and isinstance(a, int) and not isinstance(a, bool) and a == 0 and isinstance(b, SignInt):
+                return b if isinstance(e.op, ast.Add) else SignInt('pos' if b.sign == 'neg' else 'neg')       # 0 - n
+            return UNK
+        if isinstance(e, ast.Call):
+            return self._call(e, env)
+        if isinstance(e, ast.NamedExpr) and isinstance(e.target, ast.Name):
+            v = self.ev(e.value, env)
+            env[e.target.id] = v
+            return v
+        return UNK
+
+    def _compare(self, op, a, b):
+        if a is UNK or b is UNK:
+            return None
+        if isinstance(op, (ast.In, ast.NotIn)):
+            r = None
+            if isinstance(b, (str, tuple)):
+                if isinstance(a, _Digit):
+                    hits = [d in b for d in '0123456789']
+                    r = True if all(hits) else (False if not any(hits) else None)
+                elif isinstance(a, str) or (isinstance(b, tuple) and isinstance(a, _CONCRETE) and not any(isinstance(x, (SuffixText, _Digit, SignInt)) or x is UNK for x in b)):
+                    try:
+                        r = a in b
+                    except TypeError:
+                        r = None
+            return r if (r is None or isinstance(op, ast.In)) else (not r)
+        if isinstance(op, (ast.Is, ast.IsNot)):
+            if a is None or b is None:
+                r = a is b
+                return r if isinstance(op, ast.Is) else (not r)
+            return None
+        if type(op) not in _FLIP:
+            return None
+        if isinstance(b, SignInt) and not isinstance(a, SignInt):
+            a, b, op = b, a, _FLIP[type(op)]()
+        if isinstance(a, SignInt):
+            if isinstance(b, int) and not isinstance(b, bool):
+                lo, hi = a.bounds()
+                return _cmp_interval(op, lo, hi, b)
+            if isinstance(b, SignInt) and a.sign != b.sign:
+                (lo, hi), c = a.bounds(), (-1 if b.sign == 'neg' else 1)
+                # every neg is below every pos
+                return {ast.Lt: a.sign == 'neg', ast.LtE: a.sign == 'neg', ast.Gt: a.sign == 'pos', ast.GtE: a.sign == 'pos', ast.Eq: False, ast.NotEq: True}[type(op)]
+            return None
+        if isinstance(a, _Digit) or isinstance(b, _Digit):
+            d, o = (a, b) if isinstance(a, _Digit) else (b, a)
+            if isinstance(op, (ast.Eq, ast.NotEq)) and isinstance(o, str) and not (len(o) == 1 and o in '0123456789'):
+                return isinstance(op, ast.NotEq)
+            return None
+        if isinstance(a, SuffixText) or isinstance(b, SuffixText):
+            t, o = (a, b) if isinstance(a, SuffixText) else (b, a)
+            if isinstance(op, (ast.Eq, ast.NotEq)) and isinstance(o, str) and suffix_cell_of(o) != (t.lead, t.mag):
+                return isinstance(op, ast.NotEq)
+            if isinstance(op, (ast.Eq, ast.NotEq)) and not isinstance(o, (str, SuffixText)):
+                return isinstance(op, ast.NotEq)        # text never equals a number / None
+            return None
+        if isinstance(a, _CONCRETE) and isinstance(b, _CONCRETE):
+            try:
+                return {ast.Eq: lambda: a == b, ast.NotEq: lambda: a != b, ast.Lt: lambda: a < b, ast.LtE: lambda: a <= b,
+                        ast.Gt: lambda: a > b, ast.GtE: lambda: a >= b}[type(op)]()
+            except TypeError:
+                raise _Raised('builtins.TypeError', None)
+        return None
+
+    def _call(self, c: ast.Call, env):
+        if any(isinstance(a, ast.Starred) for a in c.args) or any(k.arg is None for k in c.keywords):
+            return UNK
+        fn = c.func
+        args = [self.ev(a, env) for a in c.args]
+        if isinstance(fn, ast.Attribute):
+            recv = self.ev(fn.value, env)
+            if isinstance(recv, SuffixText) and not c.keywords:
+                if fn.attr in ('isdigit', 'isdecimal', 'isnumeric') and not args:
+                    return recv.lead == 'digit'
+                if fn.attr == 'startswith' and len(args) == 1 and isinstance(args[0], (str, tuple)):
+                    alts = args[0] if isinstance(args[0], tuple) else (args[0],)
+                    rs = [self._startswith(recv, a) if isinstance(a, str) else None for a in alts]
+                    return True if any(r is True for r in rs) else (False if all(r is False for r in rs) else UNK)
+                if fn.attr in ('strip', 'lstrip', 'rstrip') and not args:
+                    return recv                        # the pieces of a header value carry no surrounding whitespace cell
+                return UNK
+            if isinstance(recv, str) and fn.attr in _PURE_TEXT_METHODS and not c.keywords and all(isinstance(a, _CONCRETE) for a in args):
+                try:
+                    return getattr(recv, fn.attr)(*args)
+                except ValueError:
+                    raise _Raised('builtins.ValueError', c)
+                except (LookupError, TypeError, AttributeError):
+                    return UNK
+            return UNK
+        q = self.p.resolve_expr(self.f.module, fn, self.f)
+        if q == 'builtins.int' and len(args) == 1 and not c.keywords:
+            v = args[0]
+            if isinstance(v, SuffixText):
+                return sign_int(v.sign())
+            if isinstance(v, SignInt) or (isinstance(v, int) and not isinstance(v, bool)):
+                return v
+            if isinstance(v, str):
+                try:
+                    return int(v)
+                except ValueError:
+                    raise _Raised('builtins.ValueError', c)
+            return UNK
+        if q == 'builtins.abs' and len(args) == 1 and not c.keywords:
+            if isinstance(args[0], SignInt):
+                return SignInt('pos')
+            if isinstance(args[0], int) and not isinstance(args[0], bool):
+                return abs(args[0])
+        if q == 'builtins.bool' and len(args) == 1 and not c.keywords:
+            t = self._bool(args[0])
+            return UNK if t is None else t
+        return UNK
+
+    @staticmethod
+    def _startswith(t: SuffixText, s: str):
+        if s == '':
+            return True
+        ch = t.first_char()
+        if isinstance(ch, _Digit):
+            return False if s[0] not in '0123456789' else None
+        if s[0] != ch:
+            return False
+        return True if len(s) == 1 else None
+
+    # ---- control flow
+    def _bind(self, t, v, env):
+        if isinstance(t, ast.Name):
+            env[t.id] = v
+        elif isinstance(t, (ast.Tuple, ast.List)):
+            if isinstance(v, tuple) and len(v) == len(t.elts) and not any(isinstance(x, ast.Starred) for x in t.elts):
+                for x, y in zip(t.elts, v):
+                    self._bind(x, y, env)
+            else:
+                for x in ast.walk(t):
+                    if isinstance(x, ast.Name):
+                        env[x.id] = UNK
+
+    def _raise_from(self, nid, qual, stmt, env, trail, und):
+        """follow the exceptional edges of node nid for an exception of class `qual` (None: whatever the CFG wired for an explicit raise)"""
+        for (y, l) in self.cfg.succ[nid]:
+            if l != 'exc' or y == self.cfg.xexit:
+                continue
+            n = self.cfg.node(y)
+            if n.kind != 'handler':
+                raise UnknownIdiom('%s: an exception inside a try/finally on the suffix branch (%s)' % (self.f.qual, short(stmt) if stmt is not None else qual))
+            h = n.ast
+            catches = h.type is None or qual is None
+            if not catches:
+                for t in (h.type.elts if isinstance(h.type, ast.Tuple) else [h.type]):
+                    hq = self.p.resolve_expr(self.f.module, t, self.f)
+                    r = self.p.is_subclass(qual, hq) if hq else None
+                    if r is None:
+                        raise UnknownIdiom('%s: cannot decide whether `except %s` catches %s' % (self.f.qual, short(t), qual))
+                    catches = catches or r
+            if catches:
+                self._go(y, env, trail, und)
+                return
+        self.outcomes.append(('raise', qual, stmt, und))
+
+    def _go(self, nid, env, trail, und):
+        while True:
+            self.steps += 1
+            if self.steps > self.MAX_STEPS or trail.count(nid) > 1:
+                raise UnknownIdiom('%s: a loop on the suffix branch of the Range parser is not evaluated' % self.f.qual)
+            trail = trail + (nid,)
+            n = self.cfg.node(nid)
+            if nid == self.cfg.exit:
+                self.outcomes.append(('return', None, None, und))
+                return
+            if nid == self.cfg.xexit:
+                self.outcomes.append(('raise', None, None, und))
+                return
+            try:
+                if n.kind == 'test':
+                    t = self.truth(n.ast, env)
+                    outs = [(y, l) for (y, l) in self.cfg.succ[nid] if l in ('T', 'F')]
+                    if t is None:
+                        for (y, l) in outs:
+                            self._go(y, dict(env), trail, und + ('%s is %s' % (short(n.ast, 60), l == 'T'),))
+                        return
+                    nxt = [y for (y, l) in outs if (l == 'T') == t]
+                    if not nxt:
+                        return
+                    nid = nxt[0]
+                    continue
+                if n.kind == 'iter':
+                    raise UnknownIdiom('%s: a loop on the suffix branch of the Range parser is not evaluated' % self.f.qual)
+                if n.kind == 'with':
+                    for it in n.stmt.items:
+                        if it.optional_vars is not None:
+                            self._bind(it.optional_vars, UNK, env)
+                elif n.kind == 'handler':
+                    if n.ast.name:
+                        env[n.ast.name] = UNK
+                elif n.kind == 'stmt':
+                    s = n.ast
+                    if isinstance(s, (ast.Assign, ast.AnnAssign)):
+                        if s.value is not None:
+                            v = self.ev(s.value, env)
+                            for t in (s.targets if isinstance(s, ast.Assign) else [s.target]):
+                                self._bind(t, v, env)
+                    elif isinstance(s, ast.AugAssign):
+                        if isinstance(s.target, ast.Name):
+                            env[s.target.id] = self.ev(ast.BinOp(left=ast.Name(id=s.target.id, ctx=ast.Load()), op=s.op, right=s.value), env)
+                    elif isinstance(s, ast.Expr):
+                        self.ev(s.value, env)
+                    elif isinstance(s, ast.Return):
+                        self.outcomes.append(('return', self.ev(s.value, env) if s.value is not None else None, s, und))
+                        return
+                    elif isinstance(s, ast.Raise):
+                        self._raise_from(nid, None, s, dict(env), trail, und)
+                        return
+                    elif isinstance(s, ast.Delete):
+                        for t in s.targets:
+                            if isinstance(t, ast.Name):
+                                env[t.id] = UNK
+            except _Raised as exc:
+                self._raise_from(nid, exc.qual, exc.node if exc.node is not None else n.ast, dict(env), trail, und)
+                return
+            nxt = [(y, l) for (y, l) in self.cfg.succ[nid] if l != 'exc']
+            if not nxt:
+                return
+            if len(nxt) > 1:
+                for (y, l) in nxt:
+                    self._go(y, dict(env), trail, und)
+                return
+            nid = nxt[0][0]
+
+
+def suffix_cell_of(text: str):
+    """(lead, mag) of a constant text that spells a number the way int() reads it, else None"""
+    t = text
+    lead = 'digit'
+    if t[:1] in ('+', '-'):
+        lead, t = t[0], t[1:]
+    if not t or not all(ch in '0123456789' for ch in t):
+        return None
+    return (lead, 'zero' if int(t) == 0 else 'pos')
